@@ -175,7 +175,7 @@ def arith_events(run, rng, nrandom):
                 run.violation("host:" + src, f"host-exception: {o[1]} ({o[2]}) evaluating {src}",
                               {"kind": "arith", "src": src})
                 continue
-            e = {"op": op, "a": limbs(a), "b": limbs(b), "ok": False, "r": limbs(0)}
+            e = {"op": op, "a": limbs(a), "b": limbs(b), "ok": False, "r": limbs(0), "rb": False}
             if o[0] == "val":
                 p = absval.to_py(o[1])
                 if isinstance(p, int) and not isinstance(p, bool):
@@ -187,6 +187,23 @@ def arith_events(run, rng, nrandom):
                     continue
             events.append(e)
             meta.append(src)
+        # comparisons: neighbours of a (a, a + 1, a - 1) make the float image collide beyond 2^53
+        for b2 in (b, a, a + 1, a - 1):
+            for op in ("<", "<=", ">", ">=", "==", "!="):
+                src = f"({a}) {op} ({b2})"
+                o = absval.outcome(lambda: it.interpret(src, "c02"))
+                if o[0] == "host":
+                    run.violation("host:" + src, f"host-exception: {o[1]} ({o[2]}) evaluating {src}",
+                                  {"kind": "arith", "src": src})
+                    continue
+                e = {"op": op, "a": limbs(a), "b": limbs(b2), "ok": False, "r": limbs(0), "rb": False}
+                if o[0] == "val":
+                    pv = absval.to_py(o[1])
+                    if isinstance(pv, bool):
+                        e["ok"] = True
+                        e["rb"] = pv
+                events.append(e)
+                meta.append(src)
     return events, meta
 
 
